@@ -36,6 +36,10 @@ def verify_function(world, target, contract, timeout_ms=20000):
         res["status"] = "undecided"
         res["undecided_reason"] = "function not found in the current source tree"
         return res
+    if isinstance(ref.node, ast.AsyncFunctionDef):
+        res["status"] = "undecided"
+        res["undecided_reason"] = "async function: outside the verified subset (A3)"
+        return res
     res["source_sha"] = hashlib.sha256(ast.dump(ref.node).encode()).hexdigest()[:16]
     res["lines"] = [ref.node.lineno, ref.node.end_lineno]
     for dec in ref.node.decorator_list:
@@ -136,6 +140,8 @@ def run_path(world, it, ref, contract):
     try:
         if exc is None:
             env = dict(penv)
+            if "result" in env:
+                env["arg_result"] = env["result"]   # a parameter called `result` stays reachable
             env["result"] = result
             for clause in contract.ensures:
                 g = it.spec_eval(clause, env, ref, old=old)
